@@ -1320,3 +1320,28 @@ Lemma file_sorted_plain f sched :
   Forall (fun e => match e with FCrash (Some _) => False | _ => True end) sched ->
   StronglySorted N.lt (fcur f :: fhanded (frun (finit f) sched)).
 Proof. intro F. apply file_sorted. apply fenv_ok_plain. exact F. Qed.
+
+(* ================= the glue: remote client and server wrapper ================= *)
+Lemma remote_client_faithful reply n :
+  remote_client reply = Some n -> reply = Some (Some n).
+Proof. destruct reply as [[m|]|]; cbn; intro H; inversion H; reflexivity. Qed.
+
+Lemma remote_client_error reply :
+  (reply = None \/ reply = Some None) -> remote_client reply = None.
+Proof. intros [->| ->]; reflexivity. Qed.
+
+(* through the remote path a caller only ever gets a number that the service returned, without
+   error, during that very call *)
+Lemma remote_only_service_numbers ops : forall st up c,
+  Forall (fun o => match fst o with Some n => In (Some n) (snd o) | None => True end) (rrun st up c ops).
+Proof.
+  induction ops as [|o r IH]; intros st up c; [constructor|].
+  destruct o as [| | |b]; cbn [rrun].
+  - destruct up.
+    + constructor; [|apply IH]. cbn [fst snd remote_client].
+      destruct (fres (frun st (fserial [c])) c) as [n|]; [left; reflexivity|exact I].
+    + constructor; [exact I|apply IH].
+  - constructor; [exact I|apply IH].
+  - constructor; [exact I|apply IH].
+  - constructor; [exact I|apply IH].
+Qed.
